@@ -348,7 +348,7 @@ def solve(assumptions, goal, timeout_ms, want_model=True):
     ver = 'z3-%s' % z3.get_version_string()
     reason = None
     s = None
-    plan = [(0, timeout_ms // 4), (7, timeout_ms // 4), (23, timeout_ms // 2)]
+    plan = [(0, timeout_ms // 8)] + [(sd, timeout_ms // 16) for sd in (1, 2, 3, 4, 5, 6)] + [(7, timeout_ms // 4), (8, timeout_ms // 4), (9, timeout_ms // 2)]
     for (seed, tmo) in plan:
         s = z3.Solver()
         s.set('timeout', max(tmo, 200))
